@@ -115,6 +115,13 @@ bool EventDefAttributes::operator!=(const EventDefAttributes& other) const
 }
 
 EventDef::EventDef()
+    : next(nullptr)
+    , prev(nullptr)
+    , formatspec(nullptr)
+    , argument_names(nullptr)
+    , documentation(nullptr)
+    , minArgs(0)
+    , flags(0)
 {
 }
 
